@@ -54,17 +54,24 @@ from __future__ import annotations
 import importlib
 import inspect
 import math
+import mmap
 import multiprocessing as mp
 import numbers
 import os
 import pkgutil
 import re
+import signal
+import struct
+import time
+import traceback
 from decimal import Decimal
 from fractions import Fraction
 
 from lxml import etree
 
-from mc.core.parallel import fanout, ncpu
+from multiprocessing.connection import wait as _mpwait
+
+from mc.core.parallel import ncpu
 from mc.core.run import HarnessError
 from mc.oracles import xsd as X
 
@@ -708,6 +715,8 @@ class Model:
         self._dpool = {}
         self._cpairs = {}
         self._dpairs = {}
+        self._atypes = {}
+        self._own = {}
         self._decl_by_key = {(d.tagname, d.prop): d for d in self.decls}
 
     def alpha(self, name):
@@ -736,6 +745,50 @@ class Model:
                 cands.update(self.S.pool(t, self.radius))
             self._dpool[k] = sorted((s for s in cands if all(self.S.ok(t, s) for t in d.types)), key=lex_order)
         return self._dpool[k]
+
+    def alpha_types(self, name):
+        """Python type name of every alphabet value (hang keys; computed before any fork)."""
+        if name not in self._atypes:
+            self._atypes[name] = [type(mk(spec)).__name__ for _, spec in self.alpha(name)]
+        return self._atypes[name]
+
+    def own_range(self, name):
+        """(lo, hi) from the numeric constants of the class's own (most derived) validate(), or None."""
+        if name not in self._own:
+            K = self.by_name[name]
+            rng = None
+            if not _is_enum(K):
+                for klass in K.__mro__:
+                    f = vars(klass).get("validate")
+                    if f is None:
+                        continue
+                    code = getattr(getattr(f, "__func__", f), "__code__", None)
+                    cs = sorted({c for c in (code.co_consts if code else ())
+                                 if isinstance(c, (int, float)) and not isinstance(c, bool) and math.isfinite(c)})
+                    if len(cs) >= 2:
+                        rng = (cs[0], cs[-1])
+                    break
+            self._own[name] = rng
+        return self._own[name]
+
+    def must_accept(self, name, v, types):
+        """True if v lies inside the class's own enforced range AND its reference lexical form is valid for ALL
+        `types`: such a value may not be rejected (rule rejects-valid)."""
+        rng = self.own_range(name)
+        if rng is None or type(v) not in (int, float) or not (rng[0] <= v <= rng[1]) or not types:
+            return False
+        scale = SCALE.get(name, 1.0)
+        if scale == 1.0:
+            if type(v) is not int:
+                return False
+            lex = str(v)
+        elif scale > 1.0:
+            lex = str(int(round(v * scale)))
+        else:
+            if type(v) is not int:
+                return False
+            lex = str(v // int(round(1.0 / scale)))
+        return all(self.S.ok(t, lex) for t in types)
 
     def class_pairs(self, name):
         if name not in self._cpairs:
@@ -917,7 +970,13 @@ def class_write(M, name, spec):
     try:
         s = K.to_xml(v)
     except (TypeError, ValueError) as e:
-        return "rejected:" + type(e).__name__, [], "rejected:" + type(e).__name__
+        fails = []
+        if M.must_accept(name, v, M.wtypes[name]):
+            fails.append(("rejects-valid", name, repr(v),
+                          "%s.to_xml(%s) raised %s: %s, but the value is inside the class's own range %s and valid for %s"
+                          % (name, _short(v), type(e).__name__, e, M.own_range(name),
+                             ",".join(t[1] for t in M.wtypes[name]))))
+        return "rejected:" + type(e).__name__, fails, "rejected:" + type(e).__name__
     except Exception as e:
         return "raised:" + type(e).__name__, [("reject-type", name, "%s->%s" % (type(v).__name__, type(e).__name__),
                                                "%s.to_xml(%s) raised %s: %s (TypeError/ValueError required)"
@@ -1003,6 +1062,11 @@ def attr_write(M, d, spec, preset):
         if after != before:
             return "rejected", [("reject-mutated", name, "*", "%s = %s raised %s but changed the element: %s -> %s"
                                  % (where, _short(v), type(e).__name__, before.decode(), after.decode()))]
+        if M.must_accept(name, v, d.types):
+            return "rejected:" + type(e).__name__, [
+                ("rejects-valid", name, repr(v),
+                 "%s = %s raised %s: %s, but the value is inside the class's own range %s and valid for %s"
+                 % (where, _short(v), type(e).__name__, e, M.own_range(name), ",".join(t[1] for t in d.types)))]
         return "rejected:" + type(e).__name__, []
     except Exception as e:
         return "raised:" + type(e).__name__, [("reject-type", name, "%s->%s" % (type(v).__name__, type(e).__name__),
@@ -1052,13 +1116,46 @@ def attr_read(M, d, s):
 
 # ---- run ------------------------------------------------------------------------------------------------------
 #
-# The parent process never calls to_xml/from_xml or an element property itself: every case runs in a forked
-# child, so that each child starts from the same pristine library state (needed by the history check, which
-# walks every class's alphabet forwards in one child and backwards in another and compares the verdicts).
+# The parent process never calls to_xml/from_xml or an element property itself. Every case runs in a forked
+# child (one child per class and walk direction, one per declaration group), all forked from the same pristine
+# parent. Each child publishes, in a shared anonymous mmap, which case it is about to evaluate; the parent is a
+# watchdog: a child that burns STALL_CPU_S of CPU (or STALL_WALL_S of wall time) inside ONE evaluation, or
+# exceeds the per-child deadline, is SIGKILLed, the evaluation is reported under rule `hang`, and the job is
+# re-run with every value of that python type (or that lexical alternative) skipped.
 
 _M = None
 _CLASS_VIOL = frozenset()
 _GROUPS = []
+_PROG = None
+
+STALL_CPU_S = 3.0          # CPU seconds inside a single evaluation (a normal one takes well under a millisecond)
+STALL_WALL_S = 20.0        # wall seconds inside a single evaluation (a hang that does not burn CPU)
+MAX_RETRIES = 6            # hangs tolerated per job before its remaining cases are given up
+K_CW, K_CR, K_CP, K_CREV, K_AW, K_AR, K_AP = 1, 2, 3, 4, 5, 6, 7
+
+
+def _child_deadline(thorough):
+    return 600.0 if thorough else 60.0
+
+
+class _Progress:
+    FMT = "qiii"
+
+    def __init__(self):
+        self.mm = mmap.mmap(-1, 64)
+        self.seq = 0
+
+    def mark(self, kind, i, j=0):
+        self.seq += 1
+        struct.pack_into(self.FMT, self.mm, 0, self.seq, kind, i, j)
+
+    def read(self):
+        return struct.unpack_from(self.FMT, self.mm, 0)
+
+
+def _mark(kind, i, j=0):
+    if _PROG is not None:
+        _PROG.mark(kind, i, j)
 
 
 class _Found:
@@ -1089,114 +1186,313 @@ def _sig_class(rule, subject, key):
     return "C11|%s|*|%s|%s" % (rule, subject, key)
 
 
-def _class_level(ctx, M):
-    """Forward walk. -> (violation keys, verdicts {(class, label): verdict})."""
-    viol = set()
-    verdicts = {}
-    found = _Found()
-    for name in sorted(M.by_name):
-        K = M.by_name[name]
-        if not M.wtypes[name]:
-            ctx.add("classes_without_xsd_type", name)
-            continue
-        if _writable(K):
-            for label, spec in M.alpha(name):
-                ctx.count("evaluations")
-                ctx.count("class_write_cases")
-                out, fails, verdict = class_write(M, name, spec)
-                verdicts[(name, label)] = verdict
-                ctx.outcome("to_xml:" + name, out)
-                if out == "accepted":
-                    ctx.count("nontrivial_count")
-                for rule, subj, key, msg in fails:
-                    viol.add((rule, subj, key))
-                    found.add(_sig_class(rule, subj, key), msg,
-                              {"kind": "class_write", "cls": name, "label": label, "spec": spec, "rule": rule,
-                               "key": key}, label)
-        else:
-            ctx.add("classes_read_only", name)
-        if not M.rtypes[name]:
-            ctx.add("classes_not_declared_on_any_attribute", name)
-        for s in M.class_read_pool(name):
+def _read_key(S, types, s):
+    return "read:" + lex_category(S, types, s)
+
+
+# ---- jobs (run in a child) -------------------------------------------------------------------------------------------
+
+def _job_class_fwd(args):
+    """Forward walk of one class. -> (Partial, violation keys, verdicts {label: verdict})."""
+    from mc.core.run import Partial
+    name, skip = args
+    M = _M
+    ctx = Partial()
+    viol, verdicts, found = set(), {}, _Found()
+    K = M.by_name[name]
+    if _writable(K):
+        types = M.alpha_types(name)
+        for i, (label, spec) in enumerate(M.alpha(name)):
+            if types[i] in skip:
+                ctx.count("not_evaluated")
+                continue
+            _mark(K_CW, i)
             ctx.count("evaluations")
-            ctx.count("class_read_cases")
-            ctx.count("nontrivial_count")
-            out, fails = class_read(M, name, s)
-            ctx.outcome("from_xml:" + name, out)
+            ctx.count("class_write_cases")
+            out, fails, verdict = class_write(M, name, spec)
+            verdicts[label] = verdict
+            ctx.outcome("to_xml:" + name, out)
+            if out == "accepted":
+                ctx.count("nontrivial_count")
             for rule, subj, key, msg in fails:
                 viol.add((rule, subj, key))
                 found.add(_sig_class(rule, subj, key), msg,
-                          {"kind": "class_read", "cls": name, "s": s, "rule": rule, "key": key}, repr(s))
-        for a, b, key in M.class_pairs(name):
-            ctx.count("evaluations")
-            ctx.count("class_equivalent_pair_cases")
-            ctx.count("nontrivial_count")
-            out, fails = class_read_pair(M, name, a, b, key)
-            ctx.outcome("from_xml-pair:" + name, out)
-            for rule, subj, k2, msg in fails:
-                viol.add((rule, subj, k2))
-                found.add(_sig_class(rule, subj, k2), msg,
-                          {"kind": "class_pair", "cls": name, "a": a, "b": b, "key": key, "rule": rule},
-                          "%r~%r" % (a, b))
-    found.emit(ctx)
-    return viol, verdicts
-
-
-def _n_class_level(M):
-    n = nw = 0
-    for name in sorted(M.by_name):
-        if not M.wtypes[name]:
+                          {"kind": "class_write", "cls": name, "label": label, "spec": spec, "rule": rule,
+                           "key": key}, label)
+    else:
+        ctx.add("classes_read_only", name)
+    if not M.rtypes[name]:
+        ctx.add("classes_not_declared_on_any_attribute", name)
+    for i, s in enumerate(M.class_read_pool(name)):
+        if _read_key(M.S, M.rtypes[name], s) in skip:
+            ctx.count("not_evaluated")
             continue
-        if _writable(M.by_name[name]):
-            nw += len(M.alpha(name))
-        n += len(M.class_read_pool(name)) + len(M.class_pairs(name))
-    return n + nw, nw
+        _mark(K_CR, i)
+        ctx.count("evaluations")
+        ctx.count("class_read_cases")
+        ctx.count("nontrivial_count")
+        out, fails = class_read(M, name, s)
+        ctx.outcome("from_xml:" + name, out)
+        for rule, subj, key, msg in fails:
+            viol.add((rule, subj, key))
+            found.add(_sig_class(rule, subj, key), msg,
+                      {"kind": "class_read", "cls": name, "s": s, "rule": rule, "key": key}, repr(s))
+    for i, (a, b, key) in enumerate(M.class_pairs(name)):
+        if _read_key(M.S, M.rtypes[name], a) in skip or _read_key(M.S, M.rtypes[name], b) in skip:
+            ctx.count("not_evaluated")
+            continue
+        _mark(K_CP, i)
+        ctx.count("evaluations")
+        ctx.count("class_equivalent_pair_cases")
+        ctx.count("nontrivial_count")
+        out, fails = class_read_pair(M, name, a, b, key)
+        ctx.outcome("from_xml-pair:" + name, out)
+        for rule, subj, k2, msg in fails:
+            viol.add((rule, subj, k2))
+            found.add(_sig_class(rule, subj, k2), msg,
+                      {"kind": "class_pair", "cls": name, "a": a, "b": b, "key": key, "rule": rule},
+                      "%r~%r" % (a, b))
+    found.emit(ctx)
+    return ctx, viol, verdicts
 
 
-def _child_forward(_):
-    from mc.core.run import Partial
-    part = Partial()
-    viol, verdicts = _class_level(part, _M)
-    return part, viol, verdicts
-
-
-def _child_reverse(_):
-    """Backward walk of every class's alphabet in a pristine process: only the verdicts are wanted."""
+def _job_class_rev(args):
+    """Backward walk of one class's alphabet in a pristine process: only the verdicts are wanted."""
+    name, skip = args
     M = _M
     verdicts = {}
-    for name in sorted(M.by_name, reverse=True):
-        if not M.wtypes[name] or not _writable(M.by_name[name]):
+    al = M.alpha(name)
+    types = M.alpha_types(name)
+    n_skipped = 0
+    for i in range(len(al) - 1, -1, -1):
+        if types[i] in skip:
+            n_skipped += 1
             continue
-        for label, spec in reversed(M.alpha(name)):
-            verdicts[(name, label)] = class_write(M, name, spec)[2]
-    return verdicts
+        _mark(K_CREV, i)
+        verdicts[al[i][0]] = class_write(M, name, al[i][1])[2]
+    return verdicts, n_skipped
 
 
-def _child_attr_all(_):
+def _job_group(args):
+    """All declarations sharing (class, XSD type set): every attribute-level signature is produced inside one
+    job, in sorted declaration order, so the kept witness does not depend on scheduling."""
     from mc.core.run import Partial
+    gi, skip = args
+    M = _M
     part = Partial()
-    _attr_level(part, list(range(len(_GROUPS))))
+    (st_name, tnames), idxs = _GROUPS[gi]
+    found = _Found()
+    target = "@" + "+".join(tnames)
+    types = M.alpha_types(st_name)
+    for di in idxs:
+        d = M.decls[di]
+        al = M.alpha(d.st_name)
+        for preset in (False, True):
+            if preset and M.preset(d) is None:
+                raise HarnessError("no schema-valid lexical form found for %s (%s)" % (d.key, d.types))
+            for i, (label, spec) in enumerate(al):
+                if types[i] in skip:
+                    part.count("not_evaluated")
+                    continue
+                _mark(K_AW, di, 2 * i + int(preset))
+                part.count("evaluations")
+                part.count("attr_write_cases")
+                out, fails = attr_write(M, d, spec, preset)
+                part.outcome("set:" + d.key, out)
+                if out in ("accepted", "removed"):
+                    part.count("nontrivial_count")
+                for rule, subj, key, msg in fails:
+                    if (rule, subj, key) in _CLASS_VIOL:
+                        part.count("folded_into_class_level")
+                        continue
+                    found.add("C11|%s|%s|%s|%s" % (rule, target, subj, key), msg,
+                              {"kind": "attr_write", "tag": d.tagname, "prop": d.prop, "label": label,
+                               "spec": spec, "preset": preset, "rule": rule, "key": key},
+                              "%s=%s" % (d.key, label))
+        for i, s in enumerate(M.decl_read_pool(d)):
+            if _read_key(M.S, d.types, s) in skip:
+                part.count("not_evaluated")
+                continue
+            _mark(K_AR, di, i)
+            part.count("evaluations")
+            part.count("attr_read_cases")
+            part.count("nontrivial_count")
+            out, fails = attr_read(M, d, s)
+            part.outcome("get:" + d.key, out)
+            for rule, subj, key, msg in fails:
+                if (rule, subj, key) in _CLASS_VIOL or ("enum-unreadable", subj, repr(s)) in _CLASS_VIOL:
+                    part.count("folded_into_class_level")
+                    continue
+                found.add("C11|%s|%s|%s|%s" % (rule, target, subj, key), msg,
+                          {"kind": "attr_read", "tag": d.tagname, "prop": d.prop, "s": s, "rule": rule,
+                           "key": key}, "%s=%r" % (d.key, s))
+        for i, (a, b, key) in enumerate(M.decl_pairs(d)):
+            if _read_key(M.S, d.types, a) in skip or _read_key(M.S, d.types, b) in skip:
+                part.count("not_evaluated")
+                continue
+            _mark(K_AP, di, i)
+            part.count("evaluations")
+            part.count("attr_equivalent_pair_cases")
+            part.count("nontrivial_count")
+            out, fails = attr_read_pair(M, d, a, b, key)
+            part.outcome("get-pair:" + d.key, out)
+            for rule, subj, k2, msg in fails:
+                if (rule, subj, k2) in _CLASS_VIOL:
+                    part.count("folded_into_class_level")
+                    continue
+                found.add("C11|%s|%s|%s|%s" % (rule, target, subj, k2), msg,
+                          {"kind": "attr_pair", "tag": d.tagname, "prop": d.prop, "a": a, "b": b, "key": key,
+                           "rule": rule}, "%s=%r~%r" % (d.key, a, b))
+    found.emit(part)
     return part
 
 
-def _in_children(jobs):
-    """Run each (fn, arg) in its own process forked from this (pristine) one; results in order."""
-    ctx = mp.get_context("fork")
-    with ctx.Pool(min(len(jobs), max(2, ncpu())), maxtasksperchild=1) as pool:
-        rs = [pool.apply_async(fn, (arg,)) for fn, arg in jobs]
-        return [r.get() for r in rs]
+def _decode(M, cls_name, prog):
+    """(hang key, description, replay data of the single case) of the evaluation a killed child was in."""
+    _, kind, i, j = prog
+    if kind in (K_CW, K_CREV):
+        label, spec = M.alpha(cls_name)[i]
+        return (M.alpha_types(cls_name)[i], "%s.to_xml(%s)" % (cls_name, label),
+                {"kind": "class_write", "cls": cls_name, "label": label, "spec": spec})
+    if kind == K_CR:
+        s = M.class_read_pool(cls_name)[i]
+        return (_read_key(M.S, M.rtypes[cls_name], s), "%s.from_xml(%r)" % (cls_name, s),
+                {"kind": "class_read", "cls": cls_name, "s": s})
+    if kind == K_CP:
+        a, b, key = M.class_pairs(cls_name)[i]
+        return (_read_key(M.S, M.rtypes[cls_name], a), "%s.from_xml(%r | %r)" % (cls_name, a, b),
+                {"kind": "class_pair", "cls": cls_name, "a": a, "b": b, "key": key})
+    d = M.decls[i]
+    if kind == K_AW:
+        label, spec = M.alpha(d.st_name)[j // 2]
+        return (M.alpha_types(d.st_name)[j // 2], "<%s>.%s = %s" % (d.tagname, d.prop, label),
+                {"kind": "attr_write", "tag": d.tagname, "prop": d.prop, "label": label, "spec": spec,
+                 "preset": bool(j % 2)})
+    if kind == K_AR:
+        s = M.decl_read_pool(d)[j]
+        return (_read_key(M.S, d.types, s), "<%s %s=%r>.%s" % (d.tagname, d.attr_name, s, d.prop),
+                {"kind": "attr_read", "tag": d.tagname, "prop": d.prop, "s": s})
+    if kind == K_AP:
+        a, b, key = M.decl_pairs(d)[j]
+        return (_read_key(M.S, d.types, a), "<%s %s=%r | %r>.%s" % (d.tagname, d.attr_name, a, b, d.prop),
+                {"kind": "attr_pair", "tag": d.tagname, "prop": d.prop, "a": a, "b": b, "key": key})
+    return ("?", "before the first evaluation", None)
 
 
-def _history_case(args):
-    """One value w of class `cls`: verdict when it is the first thing written, then write its equal-valued
-    peers, then the verdict again."""
-    name, wspec, peers = args
-    M = _M or model(False)
-    v1 = class_write(M, name, wspec)[2]
-    for p in peers:
-        class_write(M, name, p)
-    v2 = class_write(M, name, wspec)[2]
-    return v1, v2
+# ---- watchdog scheduler ---------------------------------------------------------------------------------------------------
+
+_TCK = os.sysconf("SC_CLK_TCK") if hasattr(os, "sysconf") else 100
+
+
+def _cpu_seconds(pid):
+    try:
+        with open("/proc/%d/stat" % pid) as f:
+            rest = f.read().rsplit(")", 1)[1].split()
+        return (int(rest[11]) + int(rest[12])) / float(_TCK)
+    except Exception:
+        return None
+
+
+def _child_main(conn, prog, fn, arg):
+    global _PROG
+    _PROG = prog
+    try:
+        res = ("ok", fn(arg))
+    except BaseException:
+        res = ("error", traceback.format_exc())
+    try:
+        conn.send(res)
+    finally:
+        conn.close()
+        os._exit(0)
+
+
+def _watch(jobs, nproc, deadline):
+    """jobs: list of (fn, arg). Runs each in its own forked child under the watchdog.
+    -> list of ('ok', result) | ('hang', progress tuple, why)."""
+    mpctx = mp.get_context("fork")
+    results = [None] * len(jobs)
+    pending = list(range(len(jobs)))[::-1]
+    running = {}
+    while pending or running:
+        while pending and len(running) < nproc:
+            idx = pending.pop()
+            prog = _Progress()
+            rconn, wconn = mpctx.Pipe(duplex=False)
+            proc = mpctx.Process(target=_child_main, args=(wconn, prog, jobs[idx][0], jobs[idx][1]))
+            proc.daemon = True
+            proc.start()
+            wconn.close()
+            now = time.time()
+            running[rconn] = {"idx": idx, "proc": proc, "prog": prog, "t0": now, "seq": -1, "t_seq": now,
+                              "cpu_seq": 0.0}
+        for conn in _mpwait(list(running), timeout=0.05):
+            st = running.pop(conn)
+            try:
+                res = conn.recv()
+            except (EOFError, OSError):
+                res = ("error", "child exited without a result (exit code %s)" % st["proc"].exitcode)
+            conn.close()
+            st["proc"].join()
+            st["prog"].mm.close()
+            if res[0] == "error":
+                for o in running.values():
+                    o["proc"].kill()
+                raise HarnessError("child crashed:\n" + res[1])
+            results[st["idx"]] = res
+        now = time.time()
+        for conn in list(running):
+            st = running[conn]
+            prog = st["prog"].read()
+            cpu = _cpu_seconds(st["proc"].pid)
+            if prog[0] != st["seq"]:
+                st["seq"], st["t_seq"], st["cpu_seq"] = prog[0], now, (cpu or 0.0)
+                continue
+            why = None
+            if cpu is not None and cpu - st["cpu_seq"] > STALL_CPU_S:
+                why = "used more than %.0f s of CPU inside one evaluation" % STALL_CPU_S
+            elif now - st["t_seq"] > STALL_WALL_S:
+                why = "spent more than %.0f s inside one evaluation" % STALL_WALL_S
+            elif now - st["t0"] > deadline:
+                why = "child exceeded its deadline of %.0f s" % deadline
+            if why:
+                try:
+                    os.kill(st["proc"].pid, signal.SIGKILL)
+                except OSError:
+                    pass
+                st["proc"].join()
+                prog = st["prog"].read()
+                del running[conn]
+                conn.close()
+                st["prog"].mm.close()
+                results[st["idx"]] = ("hang", prog, why)
+    return results
+
+
+def _run_with_retries(M, specs, nproc, deadline, learned):
+    """specs: list of (fn, key, cls_name) where the job argument is (key, frozenset(skip)).
+    -> (results per spec or None when given up, hangs [(spec index, hang key, description, case, why)])."""
+    skips = [set(learned.get(sp[2], ())) for sp in specs]
+    results = [None] * len(specs)
+    hangs = []
+    todo = list(range(len(specs)))
+    for _round in range(MAX_RETRIES + 1):
+        if not todo:
+            break
+        out = _watch([(specs[i][0], (specs[i][1], frozenset(skips[i]))) for i in todo], nproc, deadline)
+        again = []
+        for i, r in zip(todo, out):
+            if r[0] == "ok":
+                results[i] = r[1]
+                continue
+            key, desc, case = _decode(M, specs[i][2], r[1])
+            hangs.append((i, key, desc, case, r[2]))
+            if case is not None and key not in skips[i]:
+                skips[i].add(key)
+                learned.setdefault(specs[i][2], set()).add(key)
+                again.append(i)
+        todo = again
+    return results, hangs, skips
 
 
 def _peers(M, name, label):
@@ -1216,64 +1512,6 @@ def _peers(M, name, label):
     return spec, out
 
 
-def _attr_level(part, chunk):
-    """One work item = all declarations sharing (class, XSD type set): every attribute-level signature is
-    produced inside one item, in sorted declaration order, so the kept witness does not depend on scheduling."""
-    M = _M
-    for gi in chunk:
-        (st_name, tnames), idxs = _GROUPS[gi]
-        found = _Found()
-        target = "@" + "+".join(tnames)
-        for di in idxs:
-            d = M.decls[di]
-            al = M.alpha(d.st_name)
-            for preset in (False, True):
-                if preset and M.preset(d) is None:
-                    raise HarnessError("no schema-valid lexical form found for %s (%s)" % (d.key, d.types))
-                for label, spec in al:
-                    part.count("evaluations")
-                    part.count("attr_write_cases")
-                    out, fails = attr_write(M, d, spec, preset)
-                    part.outcome("set:" + d.key, out)
-                    if out in ("accepted", "removed"):
-                        part.count("nontrivial_count")
-                    for rule, subj, key, msg in fails:
-                        if (rule, subj, key) in _CLASS_VIOL:
-                            part.count("folded_into_class_level")
-                            continue
-                        found.add("C11|%s|%s|%s|%s" % (rule, target, subj, key), msg,
-                                  {"kind": "attr_write", "tag": d.tagname, "prop": d.prop, "label": label,
-                                   "spec": spec, "preset": preset, "rule": rule, "key": key},
-                                  "%s=%s" % (d.key, label))
-            for s in M.decl_read_pool(d):
-                part.count("evaluations")
-                part.count("attr_read_cases")
-                part.count("nontrivial_count")
-                out, fails = attr_read(M, d, s)
-                part.outcome("get:" + d.key, out)
-                for rule, subj, key, msg in fails:
-                    if (rule, subj, key) in _CLASS_VIOL or ("enum-unreadable", subj, repr(s)) in _CLASS_VIOL:
-                        part.count("folded_into_class_level")
-                        continue
-                    found.add("C11|%s|%s|%s|%s" % (rule, target, subj, key), msg,
-                              {"kind": "attr_read", "tag": d.tagname, "prop": d.prop, "s": s, "rule": rule,
-                               "key": key}, "%s=%r" % (d.key, s))
-            for a, b, key in M.decl_pairs(d):
-                part.count("evaluations")
-                part.count("attr_equivalent_pair_cases")
-                part.count("nontrivial_count")
-                out, fails = attr_read_pair(M, d, a, b, key)
-                part.outcome("get-pair:" + d.key, out)
-                for rule, subj, k2, msg in fails:
-                    if (rule, subj, k2) in _CLASS_VIOL:
-                        part.count("folded_into_class_level")
-                        continue
-                    found.add("C11|%s|%s|%s|%s" % (rule, target, subj, k2), msg,
-                              {"kind": "attr_pair", "tag": d.tagname, "prop": d.prop, "a": a, "b": b, "key": key,
-                               "rule": rule}, "%s=%r~%r" % (d.key, a, b))
-        found.emit(part)
-
-
 def _tname(t):
     return ("xsd:" if t[0] == XS else "") + t[1]
 
@@ -1282,6 +1520,8 @@ def run(ctx):
     global _M, _CLASS_VIOL, _GROUPS
     M = _M = model(ctx.thorough)
     S = M.S
+    deadline = _child_deadline(ctx.thorough)
+    nproc = max(1, ncpu())
 
     # oracle self-test: libxml2 must discriminate, else everything below is vacuous
     probes = [((X.NS_A, "ST_PositiveFixedAngle"), "21599999", True), ((X.NS_A, "ST_PositiveFixedAngle"), "21600000", False),
@@ -1303,55 +1543,124 @@ def run(ctx):
         raise HarnessError("attribute declarations without an XSD type: %s" % M.no_type)
 
     # everything the children need is computed here, before any fork (and before the library is exercised)
-    n_class, n_class_writes = _n_class_level(M)
+    names = []
+    n_class = n_class_writes = 0
+    for name in sorted(M.by_name):
+        if not M.wtypes[name]:
+            ctx.add("classes_without_xsd_type", name)
+            continue
+        names.append(name)
+        if _writable(M.by_name[name]):
+            n_class_writes += len(M.alpha(name))
+            M.alpha_types(name)
+        n_class += len(M.class_read_pool(name)) + len(M.class_pairs(name))
     groups = {}
     n_attr = 0
     for i, d in enumerate(M.decls):
         n_attr += 2 * len(M.alpha(d.st_name)) + len(M.decl_read_pool(d)) + len(M.decl_pairs(d))
+        M.alpha_types(d.st_name)
+        M.preset(d)
         groups.setdefault((d.st_name, tuple(_tname(t) for t in d.types)), []).append(i)
     _GROUPS = sorted(groups.items())
     n_pair_families = len({k.split("~")[0] for d in M.decls for _, _, k in M.decl_pairs(d)})
     if sum(len(M.decl_pairs(d)) for d in M.decls) < 100 or n_pair_families < 8:
         raise HarnessError("differential reading oracle is vacuous: too few equivalent pairs")
+    n_own = sum(1 for n in names if M.own_range(n))
+    if n_own < 15:
+        raise HarnessError("rejects-valid rule is vacuous: own range found for %d classes only" % n_own)
 
-    # class level: forward and backward walk, each in its own pristine process
-    (part, viol, fwd), rev = _in_children([(_child_forward, 0), (_child_reverse, 0)])
-    ctx.merge(part)
-    ctx.count("evaluations", len(rev))
-    ctx.count("class_write_cases_reverse_order", len(rev))
-    if set(fwd) != set(rev) or len(rev) != n_class_writes:
-        raise HarnessError("forward and backward walks differ in their case sets (%d / %d / %d)"
-                           % (len(fwd), len(rev), n_class_writes))
-    hist = _Found()
-    for name in sorted(M.by_name):
-        if not M.wtypes[name] or not _writable(M.by_name[name]):
+    learned = {}
+    all_hangs = []
+
+    # phase 1: class level, forward walk, one pristine child per class
+    order1 = ctx.rotate(names)
+    specs1 = [(_job_class_fwd, n, n) for n in order1]
+    res1, hangs1, _ = _run_with_retries(M, specs1, nproc, deadline, learned)
+    viol = set()
+    fwd = {}
+    by_name1 = dict(zip(order1, res1))
+    for name in names:
+        r = by_name1[name]
+        if r is None:
             continue
+        part, v, verdicts = r
+        ctx.merge(part)
+        viol |= v
+        fwd[name] = verdicts
+    hang_found = _Found()
+    for i, key, desc, case, why in sorted(hangs1, key=lambda h: (order1[h[0]], h[1])):
+        name = order1[i]
+        viol.add(("hang", name, key))
+        hang_found.add(_sig_class("hang", name, key),
+                       "%s did not return: the child %s and was killed" % (desc, why),
+                       {"kind": "hang", "case": case, "rule": "hang"}, desc)
+    hang_found.emit(ctx)
+
+    # phase 2: class level backward walk (history) and attribute level, with the skips learned in phase 1
+    wnames = [n for n in names if _writable(M.by_name[n]) and n in fwd]
+    _CLASS_VIOL = frozenset(viol)
+    order_r = ctx.rotate(wnames)
+    order_g = ctx.rotate(range(len(_GROUPS)))
+    specs2 = [(_job_class_rev, n, n) for n in order_r] + [(_job_group, gi, _GROUPS[gi][0][0]) for gi in order_g]
+    res2, hangs2, _ = _run_with_retries(M, specs2, nproc, deadline, learned)
+    rev = {}
+    for n, r in zip(order_r, res2[:len(order_r)]):
+        if r is not None:
+            rev[n] = r[0]
+            ctx.count("evaluations", len(r[0]))
+            ctx.count("class_write_cases_reverse_order", len(r[0]))
+            ctx.count("not_evaluated", r[1])
+    gres = dict(zip(order_g, res2[len(order_r):]))
+    for gi in range(len(_GROUPS)):
+        if gres.get(gi) is not None:
+            ctx.merge(gres[gi])
+    hang_found = _Found()
+    for i, key, desc, case, why in sorted(hangs2, key=lambda h: (str(specs2[h[0]][1]), h[1])):
+        cls_name = specs2[i][2]
+        if ("hang", cls_name, key) in _CLASS_VIOL:
+            ctx.count("folded_into_class_level")
+            continue
+        if specs2[i][0] is _job_class_rev:
+            sig = _sig_class("hang", cls_name, key)
+        else:
+            sig = "C11|hang|@%s|%s|%s" % ("+".join(_GROUPS[specs2[i][1]][0][1]), cls_name, key)
+        hang_found.add(sig, "%s did not return: the child %s and was killed" % (desc, why),
+                       {"kind": "hang", "case": case, "rule": "hang"}, desc)
+    hang_found.emit(ctx)
+    all_hangs = hangs1 + hangs2
+
+    # history: forward against backward verdicts
+    hist = _Found()
+    for name in wnames:
+        if name not in rev:
+            continue
+        f, r = fwd[name], rev[name]
+        if not all_hangs and set(f) != set(r):
+            raise HarnessError("forward and backward walks of %s differ in their case sets" % name)
         for label, spec in M.alpha(name):
-            vf, vr = fwd[(name, label)], rev[(name, label)]
-            ctx.outcome("history:" + name, "same" if vf == vr else "differs")
-            if vf != vr:
+            if label not in f or label not in r:
+                continue
+            ctx.outcome("history:" + name, "same" if f[label] == r[label] else "differs")
+            if f[label] != r[label]:
                 spec, peers = _peers(M, name, label)
                 tname = type(mk(spec)).__name__
-                viol.add(("history", name, tname))
                 hist.add(_sig_class("history", name, tname),
                          "%s.to_xml(%s): %s when the alphabet is walked forwards but %s when walked backwards; the "
                          "verdict on a value must not depend on what was written before it"
-                         % (name, label, vf, vr),
+                         % (name, label, f[label], r[label]),
                          {"kind": "history", "cls": name, "label": label, "spec": spec, "peers": peers,
                           "rule": "history"}, label)
     hist.emit(ctx)
-    _CLASS_VIOL = frozenset(viol)
 
-    # attribute level
-    order = ctx.rotate(range(len(_GROUPS)))
-    if ncpu() <= 1:
-        ctx.merge(_in_children([(_child_attr_all, 0)])[0])
-    else:
-        fanout(ctx, _attr_level, order, chunk_size=1, min_parallel=1)
-
-    expected = n_class + n_class_writes + n_attr
-    if ctx.counters.get("evaluations", 0) != expected:
-        raise HarnessError("evaluations %d != closed form %d" % (ctx.counters.get("evaluations", 0), expected))
+    expected = n_class + 2 * n_class_writes + n_attr
+    done = ctx.counters.get("evaluations", 0)
+    if all_hangs:
+        lost = expected - done
+        ctx.cap("%d evaluation(s) hung and were killed; %d of %d cases not evaluated (values of the hanging python "
+                "type or lexical alternative are skipped for that class)" % (len(all_hangs), lost, expected))
+        ctx.extra["hung_evaluations"] = len(all_hangs)
+    elif done != expected:
+        raise HarnessError("evaluations %d != closed form %d" % (done, expected))
 
     ctx.extra["attribute_declarations"] = len(M.decls)
     ctx.extra["attribute_declarations_without_xsd_type"] = M.no_type
@@ -1362,6 +1671,8 @@ def run(ctx):
     ctx.extra["xsd_types_of_declared_attributes"] = len({t for d in M.decls for t in d.types})
     ctx.extra["alphabet_sizes"] = {n: len(M.alpha(n)) for n in sorted(M._alpha)}
     ctx.extra["equivalent_pair_families"] = sorted({k for d in M.decls for _, _, k in M.decl_pairs(d)})
+    ctx.extra["classes_with_own_range(rejects-valid)"] = {n: list(M.own_range(n)) for n in names if M.own_range(n)}
+    ctx.extra["forked_children"] = len(specs1) + len(specs2) + len(all_hangs)
     d0 = M._decl_by_key.get(("a:lin", "ang")) or M.decls[0]
     ctx.sample({"decl": d0.key, "class": d0.st_name, "xsd": [t[1] for t in d0.types],
                 "values": [l for l, _ in M.alpha(d0.st_name)][:40], "lexical_forms_read": M.decl_read_pool(d0)[:20]})
@@ -1378,10 +1689,23 @@ def run(ctx):
 
 # ---- replay -------------------------------------------------------------------------------------------------------
 
+def _history_case(args):
+    """One value w of class `cls`: verdict when it is the first thing written, then write its equal-valued
+    peers, then the verdict again."""
+    name, wspec, peers = args
+    M = _M or model(False)
+    v1 = class_write(M, name, wspec)[2]
+    for p in peers:
+        class_write(M, name, p)
+    v2 = class_write(M, name, wspec)[2]
+    return v1, v2
+
+
 def _replay_child(data):
     kind = data["kind"]
     # evaluation of a single case does not depend on the tier (the tier only sizes the alphabets)
     M = _M or model(False)
+    _mark(0, 0)
     if kind == "history":
         v1, v2 = _history_case((data["cls"], data["spec"], data["peers"]))
         if v1 != v2:
@@ -1411,8 +1735,16 @@ def _replay_child(data):
 
 
 def replay(data):
-    """Each replay runs in a process forked from this one, so that replays do not share library state."""
+    """Each replay runs in a watched process forked from this one: replays do not share library state, and a
+    case that does not return is killed after the same per-evaluation limits as in the run."""
     global _M
     if _M is None:
         _M = model(False)
-    return _in_children([(_replay_child, data)])[0]
+    hang = data["kind"] == "hang"
+    case = data["case"] if hang else data
+    if case is None:
+        return None
+    r = _watch([(_replay_child, case)], 1, _child_deadline(False))[0]
+    if r[0] == "hang":
+        return "the evaluation did not return: the child %s and was killed" % r[2]
+    return None if hang else r[1]
